@@ -55,6 +55,8 @@ class Exchange:
         self.now = EPOCH
         self.strategy_ref = strategy_ref if strategy_ref is not None else fconfig.customer_strategy_ref
         self.place_memo = {}  # customer_ref -> response json (re-submission returns the original outcome)
+        self.current_account = None  # username of the account whose endpoint is being called (see _AccountBetting)
+        self.account_errors = []
         self.remember = False  # set while LiveWorld.exchange_process runs
         self.memo = {}  # (kind, customer_ref) -> (resource class, kwargs): the exchange has already processed this call
 
@@ -65,7 +67,7 @@ class Exchange:
 
     def _decide(self, kind, market_id, instructions, customer_ref):
         n_prev = sum(1 for c in self.calls if c["customer_ref"] == customer_ref and c["kind"] == kind)
-        rec = {"kind": kind, "market_id": market_id, "instructions": copy.deepcopy(instructions), "customer_ref": customer_ref, "attempt": n_prev + 1, "n": len(self.calls)}
+        rec = {"kind": kind, "market_id": market_id, "instructions": copy.deepcopy(instructions), "customer_ref": customer_ref, "attempt": n_prev + 1, "n": len(self.calls), "account": self.current_account}
         if (kind, customer_ref) in self.memo:
             # the exchange processed this request earlier (LiveWorld.exchange_process); this is the response being delivered
             rec["memo_hit"] = True
@@ -294,6 +296,7 @@ class Exchange:
             "customerOrderRef": ins.get("customerOrderRef"),
             "customerStrategyRef": strategy_ref if strategy_ref is not None else self.strategy_ref,
             "regulatorCode": "GIBRALTAR REGULATOR",
+            "account": self.current_account,
         }
         self.bets[bid] = bet
         return bet
@@ -353,7 +356,7 @@ class Exchange:
     def snapshot(self, client, table=None, only=None):
         """CurrentOrdersEvent as OrderStream.handle_output builds it (order_book.client = client)."""
         table = self.bets if table is None else table
-        cur = [copy.deepcopy(b) for b in table.values() if only is None or b["betId"] in only]
+        cur = [{k: v for k, v in copy.deepcopy(b).items() if k != "account"} for b in table.values() if only is None or b["betId"] in only]
         co = resources.CurrentOrders(currentOrders=cur, moreAvailable=False, matches=[], streaming_unique_id=1, streaming_update=None, streaming_snap=False, publish_time=None, elapsed_time=0.0)
         co.client = client
         return CurrentOrdersEvent([co])
@@ -367,13 +370,45 @@ def _place_instruction_json(ins):
     return out
 
 
+class _AccountBetting:
+    """The betting endpoint of ONE account: everything it is asked to do is booked under that account.  A cancel / update / replace for
+    a bet that belongs to another account is recorded (`Exchange.account_errors`; the real exchange would not find the bet)."""
+
+    def __init__(self, exchange, account):
+        self.__dict__["_ex"] = exchange
+        self.__dict__["_account"] = account
+
+    def __getattr__(self, name):
+        target = getattr(self._ex, name)
+        if name not in ("place_orders", "cancel_orders", "update_orders", "replace_orders"):
+            return target
+        ex, account = self._ex, self._account
+
+        def call(*a, **kw):
+            ex.current_account = account
+            if name != "place_orders":
+                for ins in kw.get("instructions") or (a[1] if len(a) > 1 else ()):
+                    b = ex.bets.get(str(ins.get("betId")))
+                    if b is not None and b.get("account") not in (None, account):
+                        ex.account_errors.append({"call": name, "through": account, "bet": b["betId"], "bet_account": b.get("account")})
+            try:
+                return target(*a, **kw)
+            finally:
+                ex.current_account = None
+
+        return call
+
+    def __setattr__(self, name, value):
+        setattr(self._ex, name, value)
+
+
 class FakeAPI:
     """Stands in for betfairlightweight.APIClient (never logs in, never touches the network)."""
 
     lightweight = False
 
     def __init__(self, exchange, username="live0"):
-        self.betting = exchange
+        self.betting = _AccountBetting(exchange, username)
         self.username = username
         self.session_timeout = 1200
         self.session_expired = False
